@@ -157,3 +157,15 @@ contract(TR + "query_ast_visitor.visit_Call", props=["C09"],
                                  "ghost:arg_frames"],
          may_raise=["Exception"], strict=False,
          ensures=[("a_call_that_returns_has_a_value@C09", "rep_of(call_node) != None")])
+# ---- the per-backend visitor factories: a new translator object and nothing else (the type registry a query declared is what it uses) ----
+for _qn, _vis in [("func_adl_xAOD.atlas.xaod.executor.atlas_xaod_executor", "func_adl_xAOD.atlas.xaod.query_ast_visitor.atlas_xaod_query_ast_visitor"),
+                  ("func_adl_xAOD.cms.aod.executor.cms_aod_executor", "func_adl_xAOD.cms.aod.query_ast_visitor.cms_aod_query_ast_visitor"),
+                  ("func_adl_xAOD.cms.miniaod.executor.cms_miniaod_executor", "func_adl_xAOD.cms.miniaod.query_ast_visitor.cms_miniaod_query_ast_visitor")]:
+    contract(_qn + ".get_visitor_obj", props=["C10", "C07"], params=dict(self=RefOf(_qn)), result=RefOf(_vis),
+             replay={"declared_types_left_as_the_query_declared_them": "redeclared_default_method"} if "atlas" in _qn else None,
+             modifies=["alloc", "_gc", "_arg_stack", "_prefix", "_block", "_book_block", "_class_vars", "_scope_stack", "_include_files", "_link_libraries",
+                       "_statements", "_variables", "_rep_dict"],
+             ensures=[("new_translator_of_this_backend", "result != None and is_new(result) and cls_is(result, '" + _vis + "')"),
+                      ("declared_types_left_as_the_query_declared_them@C10,C07", "g_method_type_dict == old(g_method_type_dict)")])
+contract("func_adl.ast.call_stack.argument_stack", assumed=True, params=dict(), result=RefOf(ARGSTACK), fresh_result=True, modifies=["alloc"],
+         ensures=["result != None"], note="func_adl: a new, empty lambda-argument stack")
